@@ -73,6 +73,28 @@ Proof.
   - exact (IHt Hl).
 Qed.
 
+(* ---- S_tau cannot be enlarged in single precision: EVERY dtype outside the precision class of a single-precision
+   context can push a value out of the class by at most two promotions with members of S_tau.  (In double precision
+   bool / int64 / float32 operands are absorbed, only complex operands leave a real context.) *)
+Definition singles := [F32; C64].
+Definition escapes (t x : dt) : bool :=
+  existsb (fun y => existsb (fun z => inS t y && inS t z && negb (inP t (promote (promote x y) z))) all_dt) all_dt.
+Lemma S_maximal_single_b : forallb (fun t => forallb (fun x => implb (negb (inP t x)) (escapes t x)) all_dt) singles = true.
+Proof. vm_compute. reflexivity. Qed.
+Theorem S_maximal_single t x : In t singles -> inP t x = false ->
+  exists y z, inS t y = true /\ inS t z = true /\ inP t (promote (promote x y) z) = false.
+Proof.
+  intros Ht Hx. pose proof S_maximal_single_b as H. rewrite forallb_forall in H. specialize (H t Ht).
+  rewrite forallb_forall in H. specialize (H x (In_all_dt x)). rewrite Hx in H. simpl in H.
+  unfold escapes in H. apply existsb_exists in H. destruct H as [y [_ H]].
+  apply existsb_exists in H. destruct H as [z [_ H]].
+  apply andb_prop in H. destruct H as [H Hn]. apply andb_prop in H. destruct H as [Hy Hz].
+  exists y, z. repeat split; try assumption. apply negb_true_iff in Hn. exact Hn.
+Qed.
+(* in double precision the real dtypes below tau are absorbed *)
+Lemma double_absorbs x : In x [B; I64; F32; F64; WI; WF] -> promote x F64 = F64 /\ promote F64 x = F64.
+Proof. simpl. intros [<-|[<-|[<-|[<-|[<-|[<-|[]]]]]]]; split; reflexivity. Qed.
+
 (* ---- closure of the precision class P_tau *)
 Lemma P_closed_b : forallb (fun t => forall2 (fun x y => implb (inP t x && inP t y)
       (inP t (promote x y) && implb (strongP t x || strongP t y) (strongP t (promote x y))))) ctxs = true.
@@ -264,10 +286,9 @@ Qed.
 (* real outputs only: strip integer index outputs *)
 Definition float_outs (p : prog) : prog := mkprog (p_init p) (p_body p) (filter float_out (p_outs p)).
 
-(* a mask in the data's dtype (or no mask): every configuration of every family passes the check, in all four contexts,
-   for the code with and without the mask cast *)
+(* a mask in the data's dtype (or no mask): every configuration of every family passes the check, in all four contexts *)
 Lemma all_skeletons_ok_b :
-  forallb (fun mc => forallb (fun t => forallb (fun c => prog_ok (mkenv t t) (float_outs (skeleton_v mc c))) all_cfgs) ctxs) bools2 = true.
+  forallb (fun t => forallb (fun c => prog_ok (mkenv t t) (float_outs (skeleton c))) all_cfgs) ctxs = true.
 Proof. vm_compute. reflexivity. Qed.
 
 Lemma float_outs_In s e p : In (s, e) (p_outs p) -> float_out (s, e) = true -> In (s, e) (p_outs (float_outs p)).
@@ -275,49 +296,40 @@ Proof. intros H1 H2. unfold float_outs. simpl. apply filter_In. split; assumptio
 
 Lemma run_float_outs en p n : run en (float_outs p) n = run en p n. Proof. reflexivity. Qed.
 
-Theorem skeletons_v_preserve_precision mc t c n s e :
-  In t ctxs -> valid_cfg c -> In (s, e) (p_outs (skeleton_v mc c)) -> float_out (s, e) = true ->
-  strongP t (eval (mkenv t t) (run (mkenv t t) (skeleton_v mc c) n) e) = true.
-Proof.
-  intros Ht Hc Hin Hf. apply all_cfgs_complete in Hc.
-  pose proof all_skeletons_ok_b as H. rewrite forallb_forall in H. specialize (H mc (In_bools2 mc)).
-  rewrite forallb_forall in H. specialize (H t Ht).
-  rewrite forallb_forall in H. specialize (H c Hc).
-  rewrite <- run_float_outs. apply (prog_precision_preserved (mkenv t t) (float_outs (skeleton_v mc c)) Ht H n s e).
-  apply float_outs_In; assumption.
-Qed.
-
 Theorem skeletons_preserve_precision t c n s e :
   In t ctxs -> valid_cfg c -> In (s, e) (p_outs (skeleton c)) -> float_out (s, e) = true ->
   strongP t (eval (mkenv t t) (run (mkenv t t) (skeleton c) n) e) = true.
-Proof. exact (skeletons_v_preserve_precision mask_cast_now t c n s e). Qed.
-
-Corollary skeletons_preserve_context t c n s e :
-  is_real t = true -> valid_cfg c -> In (s, e) (p_outs (skeleton c)) -> float_out (s, e) = true ->
-  eval (mkenv t t) (run (mkenv t t) (skeleton c) n) e = t.
 Proof.
-  intros Hr Hc Hin Hf. apply (strongP_real _ _ Hr). apply (skeletons_preserve_precision t c n s e); auto.
-  clear - Hr. destruct t; try discriminate Hr; simpl; tauto.
+  intros Ht Hc Hin Hf. apply all_cfgs_complete in Hc.
+  pose proof all_skeletons_ok_b as H. rewrite forallb_forall in H. specialize (H t Ht).
+  rewrite forallb_forall in H. specialize (H c Hc).
+  rewrite <- run_float_outs. apply (prog_precision_preserved (mkenv t t) (float_outs (skeleton c)) Ht H n s e).
+  apply float_outs_In; assumption.
 Qed.
 
-(* ---- with the mask cast (mc = true) every skeleton is mask-guarded, hence clean for EVERY mask dtype *)
-Lemma cast_skeletons_guarded_b : forallb (fun c => prog_guarded (skeleton_v true c)) all_cfgs = true.
+(* ---- every skeleton of the current code is mask-guarded, hence clean for EVERY mask dtype *)
+Lemma skeletons_guarded_b : forallb (fun c => prog_guarded (skeleton c)) all_cfgs = true.
 Proof. vm_compute. reflexivity. Qed.
 
-Lemma out_dtypes_In en p n s e : In (s, e) (p_outs p) -> In (s, eval en (run en p n) e) (out_dtypes en p n).
-Proof. intros H. unfold out_dtypes. apply (in_map (fun o => (fst o, eval en (run en p n) (snd o))) _ _ H). Qed.
-
-Theorem cast_skeletons_any_mask t m c n s e :
-  In t ctxs -> valid_cfg c -> In (s, e) (p_outs (skeleton_v true c)) -> float_out (s, e) = true ->
-  strongP t (eval (mkenv t m) (run (mkenv t m) (skeleton_v true c) n) e) = true.
+Theorem skeletons_any_mask t m c n s e :
+  In t ctxs -> valid_cfg c -> In (s, e) (p_outs (skeleton c)) -> float_out (s, e) = true ->
+  strongP t (eval (mkenv t m) (run (mkenv t m) (skeleton c) n) e) = true.
 Proof.
   intros Ht Hc Hin Hf. pose proof (all_cfgs_complete c Hc) as Hc'.
-  pose proof cast_skeletons_guarded_b as G. rewrite forallb_forall in G. specialize (G c Hc').
+  pose proof skeletons_guarded_b as G. rewrite forallb_forall in G. specialize (G c Hc').
   rewrite (run_mask_irrelevant t m t _ n G).
   assert (Ge : mask_guarded e = true).
   { unfold prog_guarded in G. apply andb_prop in G. destruct G as [_ Go]. rewrite forallb_forall in Go. exact (Go (s, e) Hin). }
   rewrite (eval_mask_irrelevant t m t _ e Ge).
-  exact (skeletons_v_preserve_precision true t c n s e Ht Hc Hin Hf).
+  exact (skeletons_preserve_precision t c n s e Ht Hc Hin Hf).
+Qed.
+
+Corollary skeletons_preserve_context t m c n s e :
+  is_real t = true -> valid_cfg c -> In (s, e) (p_outs (skeleton c)) -> float_out (s, e) = true ->
+  eval (mkenv t m) (run (mkenv t m) (skeleton c) n) e = t.
+Proof.
+  intros Hr Hc Hin Hf. apply (strongP_real _ _ Hr). apply (skeletons_any_mask t m c n s e); auto.
+  clear - Hr. destruct t; try discriminate Hr; simpl; tauto.
 Qed.
 
 (* ---- refutations: what breaks a float32 context *)
@@ -329,7 +341,7 @@ Definition out_of_prog (en : env) (p : prog) (n : nat) (s : string) : option dt 
 Definition out_of_v (mc : bool) (en : env) (c : cfg) (n : nat) (s : string) : option dt := out_of_prog en (skeleton_v mc c) n s.
 Definition out_of (en : env) (c : cfg) (n : nat) (s : string) : option dt := out_of_prog en (skeleton c) n s.
 
-(* without the cast (mc = false) a boolean / integer mask widens float32 data *)
+(* without the cast (mc = false: the code before the repair 45ef7df) a boolean / integer mask widens float32 data *)
 Lemma parafac_bool_mask_refuted :
   exists n, out_of_v false (mkenv F32 B) (with_mask (cfg0 FParafac)) n "factors" = Some F64.
 Proof. exists 2. vm_compute. reflexivity. Qed.
@@ -367,7 +379,7 @@ Lemma active_set_fallback_now : forall n, out_of (mkenv F32 F32) active_fallback
 Proof.
   intros n.
   assert (H : eval (mkenv F32 F32) (run (mkenv F32 F32) (skeleton active_fallback) n) X_ = F32).
-  { apply (skeletons_preserve_context F32 active_fallback n "out0" X_); try reflexivity.
+  { apply (skeletons_preserve_context F32 F32 active_fallback n "out0" X_); try reflexivity.
     - split; simpl; tauto.
     - simpl. tauto. }
   unfold out_of, out_of_prog, out_dtypes.
